@@ -61,6 +61,10 @@ CHECKS = {
  'C10': dict(level='exploration', ref='3/C10', technique='differential monitor on preprocessor executions over generated conditional nestings and generated directory trees + option orders: chibicc -E (ASan/UBSan build) tokens vs gcc -E == clang -E; unique marker tokens per group/file',
              text='Conditional nestings to depth 5 use #if expressions generated with a Python intmax_t/uintmax_t model (only defined operations; values around 2^31/2^63, defined, unknown identifiers), every #elif/#else shape, garbage and directives inside skipped groups and trailing tokens on directive lines. Include graphs are generated on disk: same-named headers in the includer directory, -I directories in random order and spelling, -idirafter, quote/angle/macro-expanded names, #include_next chains, seven header styles around include guards and #pragma once, -include and -D/-U orders. Markers make a token diff name the wrongly taken or skipped group/file.',
              note='gcc == clang trusted; no fake system directory (chibicc has no -isystem); cases the references reject (unresolvable includes) are discarded'),
+
+ 'C18': dict(level='exploration', ref='3/C18', technique='run-time monitor of printed __LINE__/__FILE__ against the generator line table == gcc == clang; diagnostic-location monitor on cc1 executions with planted errors; parser of .file/.loc records in -S output checked against the token-carrying physical lines',
+             text='Probe statements are spread over a main file and up to two headers and separated by random blank lines, line and block comments (multi-line, with splices, `/*/`), backslash-newlines between and inside tokens, CR-LF and lone-CR line ends, nested probe macros and multi-line invocations. Because one miscounted line shifts everything after it, every probe after a transformation is checked. One third of the files carry a planted undefined identifier (plain, macro body, macro argument, pasted, next to #) whose diagnostic must name the planting line; every .loc record must point at a line that carries a token.',
+             note='generator line table cross-checked against gcc == clang (disagreeing probes discarded); #line only in the dedicated probe of the open finding pinned by test/line.c; diagnostics inside macros may name definition or invocation line'),
 }
 REASON_WIP = 'check not built yet in this session (planned, see DESIGN.md section 3); will be claimed once its monitor is silent on the unchanged tree'
 
